@@ -112,7 +112,7 @@ def run_harness(progfile, nprogs, timeout=600, extra=None, cap=3000, shards=None
 def run_driver(mode, path, timeout=3600, cap=3000):
     """The extracted model / specification on a program file, sharded over several
     processes (modes whose input is a program file); other modes run as one process."""
-    if mode not in ("run", "keys", "ref", "refw", "rc11s", "rc11w"):
+    if mode not in ("run", "keys", "ref", "refw", "refa", "rc11s", "rc11w"):
         p = subprocess.run([DRIVER, mode, path, "--cap", str(cap)], capture_output=True, text=True, timeout=timeout)
         return p.stdout, p.returncode, p.stderr
     from concurrent.futures import ThreadPoolExecutor
